@@ -74,6 +74,13 @@ func main() {
 			os.Exit(1)
 		}
 		props.DebugRangeString(prog)
+	case "errdrop":
+		prog, err := core.Load(core.RepoDir(), "")
+		if err != nil {
+			fmt.Println(err)
+			os.Exit(1)
+		}
+		props.DebugDroppedErrors(prog)
 	case "ackjoin":
 		prog, err := core.Load(core.RepoDir(), "")
 		if err != nil {
